@@ -32,7 +32,41 @@ fn leaf_case(em: &mut Emitter, ty: u8, c: &[u8]) {
     });
 }
 
+/// every definite length form of n (short form when n < 128, long forms with 1..=5 length octets)
+fn length_forms(n: usize) -> Vec<Vec<u8>> {
+    let mut v = Vec::new();
+    if n < 128 { v.push(vec![n as u8]); }
+    for k in 1..=5usize {
+        if k < 8 && (n as u64) >> (8 * k as u32).min(63) != 0 && k < 5 { continue }
+        let mut f = vec![0x80 | k as u8];
+        for i in (0..k).rev() { f.push(((n as u64) >> (8 * i)) as u8); }
+        v.push(f);
+    }
+    v
+}
+
+/// an OCTET STRING of n octets under every length form, decoded in DER and re-encoded in DER
+fn length_case(em: &mut Emitter, n: usize, fill: u8, form: &[u8]) {
+    em.case(503, &[num_arg(n), num_arg(fill), bytes_arg(form)], || {
+        let mut d = vec![0x04u8]; d.extend_from_slice(form); d.resize(d.len() + n, fill);
+        let r = catch(|| Constructed::decode(d.as_slice().into_source(), Mode::Der, |cons| bcder::OctetString::take_from(cons)).ok().map(|os| {
+            let mut out = Vec::new(); bcder::encode::Values::write_encoded(&os.encode_ref(), Mode::Der, &mut out).unwrap(); out }));
+        match r {
+            Some(Some(w)) => (Ints::new().n(R_OK).b(w == d), if w == d { Oracle::Pass } else { Oracle::Fail("der-reencoding-differs-from-accepted-input".into()) }, true),
+            Some(None) => (Ints::new().n(R_CERR), Oracle::Pass, true),
+            None => (Ints::new().n(R_PANIC), Oracle::Fail("panic".into()), true),
+        }
+    });
+}
+
 pub fn run(em: &mut Emitter, rng: &mut Rng, thorough: bool) {
+    for &n in &[0usize, 1, 2, 126, 127, 128, 129, 200, 255, 256, 257, 1000, 4095, 4096, 4097, 5000, 32768, 65534, 65535, 65536, 70000] {
+        for f in length_forms(n) { length_case(em, n, rng.byte(), &f); }
+    }
+    for _ in 0..(if thorough { 300 } else { 60 }) {
+        let n = match rng.below(4) { 0 => rng.range(0, 300), 1 => rng.range(3000, 5000), 2 => rng.range(60000, 70000), _ => rng.range(0, 70000) } as usize;
+        for f in length_forms(n) { length_case(em, n, rng.byte(), &f); }
+    }
     let tys: [u8; 16] = [0, 1, 2, 3, 4, 5, 6, 7, 8, 9, 10, 11, 12, 14, 16, 17];
     for &ty in &tys {
         leaf_case(em, ty, &[]);
